@@ -14,6 +14,13 @@ CHECKS = {
  'C07': dict(sec='2/C07', tech='exhaustive enumeration of all vectors up to width 11/16 and all byte strings up to 2 bytes under every bit order (engine D), every byte length 1..40 (engine P), against an integer model',
              text='All constructors, all conversions out and all round trips are executed for every (size,value) up to width 11 (thorough 16), every byte string of length <=2 under bitorder -1/+1/0/2, every byte length 1..40 under every dividing group size, and compared with an independent integer model of the documented bit orders.',
              note='Trusted: the integer model in mc/checks/c07.py (model_load, 12 lines). Larger widths are covered only on the boundary-value alphabet the property itself names.'),
+
+ 'C09': dict(sec='2/C09', tech='exhaustive enumeration of scheme x block size x length residue x bit length (engine P), complete malformed-padding domains for small blocks (engine D), explicit-state BFS over iterblocks call histories on one pad object (engine H), against a padding specification model on integers',
+             text='Every scheme is run on every block size 8..1024 (step 8), every length residue class over 0..3 blocks and every L mod 8; each yielded block and the counters read right after it are compared with a specification model; remove() is applied to the result; PKCS#7/X9.23 remove is run on complete small-block domains; all call histories (continuations, final, refused requests, calls after the pad) to depth 3/4 are explored on live pad objects.',
+             note='Trusted: mc/refs/padspec.py (60 lines, integers only). Not judged: empty message under none/zero padding, bit lengths on byte-granular schemes, padcnt of the length-strengthening schemes.'),
+ 'C16': dict(sec='2/C16', tech='exhaustive enumeration of all vector pairs over Z/2^k for small k and dimension (engine D) + BFS to fixpoint over assignment histories on a live Poly (engine H), against a list-of-ints model',
+             text='Every ordered pair of vectors over Z/2, Z/4, Z/8 up to dimension 4/3/2 (thorough 6/4/3 and dim-4 over Z/8 against all short vectors) is run through + - ^ & | //, every vector through neg, shifts and every index/slice/list read and write, the integer ring on a signed alphabet, split/pack on 5-8 element sizes; assignment histories on a live Poly are explored to the fixpoint.',
+             note='Trusted: Python list arithmetic in mc/checks/c16.py. Out-of-range slices, int-valued slice assignment and pack(poly, big-endian) are not judged (ambiguous in the statement).'),
 }
 
 PENDING = {}
